@@ -356,6 +356,81 @@ def f_hier():
     ("up_c", "comb", [("=", ref("i", path=("c",)), ref("in_"))])])
 
 
+# ----------------------------------------------------------------- F-ffx (register-centred, used by C07)
+
+def _stage(cls, nregs, en=False):
+  """A component holding a chain of nregs registers d -> r0 -> .. -> q (each in its own ff block)."""
+  sigs = [("d", "in", B(4), ()), ("q", "out", B(4), ())] + [(f"r{i}", "wire", B(4), ()) for i in range(nregs)]
+  if en: sigs.append(("en", "in", B(1), ()))
+  blocks = []
+  for i in range(nregs):
+    src = ref(f"r{i - 1}") if i else ref("d")
+    body = [("=", ref(f"r{i}"), src)]
+    if en: body = [("if", ref("en"), body, [])]
+    blocks.append((f"ff{i}", "ff", body))
+  conns = [(ref("q"), ref(f"r{nregs - 1}"))]
+  return comp(cls, sigs, blocks=blocks, connects=conns)
+
+
+def f_ffx():
+  # 1. shift registers spread over parent / child / grandchild with k registers each
+  for pk, ck, gk in [(2, 1, 0), (1, 2, 0), (1, 1, 0), (3, 1, 0), (2, 1, 1), (2, 2, 1), (1, 1, 1), (2, 0, 1)]:
+    sigs = [("in_", "in", B(4), ()), ("out", "out", B(4), ())] + [(f"p{i}", "wire", B(4), ()) for i in range(pk)]
+    blocks = []
+    for i in range(pk):
+      blocks.append((f"pf{i}", "ff", [("=", ref(f"p{i}"), ref(f"p{i - 1}") if i else ref("in_"))]))
+    children, conns = [], []
+    last = ref(f"p{pk - 1}")
+    if ck or gk:
+      if gk:
+        g = _stage("G", gk)
+        if ck:
+          ch = _stage("Cst", ck)
+          ch["sigs"].append(("m", "wire", B(4), ()))
+          ch["children"] = [("g", g)]
+          ch["connects"] = [(ref("d", path=("g",)), ref(f"r{ck - 1}")), (ref("q"), ref("q", path=("g",)))]
+        else:
+          ch = comp("Cpass", [("d", "in", B(4), ()), ("q", "out", B(4), ())], children=[("g", g)],
+                    connects=[(ref("d", path=("g",)), ref("d")), (ref("q"), ref("q", path=("g",)))])
+      else:
+        ch = _stage("Cst", ck)
+      children = [("c", ch)]
+      conns = [(ref("d", path=("c",)), last), (ref("out"), ref("q", path=("c",)))]
+    else:
+      conns = [(ref("out"), last)]
+    yield f"ffx:shift:p{pk}c{ck}g{gk}", comp("Shift", sigs, blocks=blocks, children=children, connects=conns)
+  # 2. many enabled registers, one ff block each (Mamba groups ff blocks into meta blocks by branchiness)
+  for n in (5, 7, 8, 9):
+    sigs = [("in_", "in", B(4), ()), ("en", "in", B(1), ()), ("out", "out", B(4), ())] + [(f"r{i}", "wire", B(4), ()) for i in range(n)]
+    blocks = [(f"ff{i}", "ff", [("if", ref("en"), [("=", ref(f"r{i}"), ref(f"r{i - 1}") if i else ref("in_"))], [])]) for i in range(n)]
+    blocks.append(("up_out", "comb", [("=", ref("out"), ("bin", "^", ref(f"r{n - 1}"), ref(f"r{n // 2}")))]))
+    yield f"ffx:many-en:{n}", comp("ManyEn", sigs, blocks=blocks)
+  # 3. every register read by another ff block, by a comb block and through a net in a child
+  ch = comp("Rd", [("x", "in", B(4), ()), ("y", "out", B(4), ()), ("k", "wire", B(4), ())],
+            blocks=[("ffk", "ff", [("=", ref("k"), ("bin", "+", ref("x"), ref("k")))]), ("upy", "comb", [("=", ref("y"), ("bin", "^", ref("k"), ref("x")))])])
+  sigs = [("in_", "in", B(4), ()), ("out", "out", B(4), ()), ("a", "wire", B(4), ()), ("b", "wire", B(4), ()), ("cm", "wire", B(4), ())]
+  yield "ffx:read-everywhere", comp("RdAll", sigs, children=[("c", ch)],
+      connects=[(ref("x", path=("c",)), ref("a"))],
+      blocks=[("ffa", "ff", [("=", ref("a"), ("bin", "+", ref("in_"), ref("b")))]),
+              ("ffb", "ff", [("=", ref("b"), ("bin", "^", ref("a"), ref("y", path=("c",))))]),
+              ("upc", "comb", [("=", ref("cm"), ("bin", "+", ref("a"), ref("b")))]),
+              ("upo", "comb", [("=", ref("out"), ("bin", "^", ref("cm"), ref("y", path=("c",))))])])
+  # 4. struct register, nested struct register, list-of-struct registers with variable index, child out-port register
+  yield "ffx:struct-nested", comp("RegN", [("in_", "in", B(4), ()), ("out", "out", B(6), ()), ("r", "wire", Npc, ()), ("q", "wire", Npc, ())], blocks=[
+      ("ffr", "ff", [("=", ref("r"), ("st", "Npc", ("st", "Sab", ref("in_", ("s", 0, 2)), ref("q", ("f", "p"), ("f", "a"))), ref("q", ("f", "c"))))]),
+      ("ffq", "ff", [("=", ref("q"), ("st", "Npc", ("st", "Sab", ref("r", ("f", "c")), ref("in_", ("s", 2, 4))), ref("r", ("f", "p"), ("f", "b"))))]),
+      ("upo", "comb", [("=", ref("out"), ("call", "concat", ref("r", ("f", "p"), ("f", "a")), ref("q", ("f", "p"), ("f", "b")), ref("q", ("f", "c"))))])])
+  vi = ("v", ("ref", (), "sel", (("b", 0),)))
+  vj = ("v", ("ref", (), "sel", (("b", 1),)))
+  yield "ffx:list-struct-var", comp("RegLS", [("in_", "in", B(4), ()), ("sel", "in", B(2), ()), ("out", "out", B(4), ()), ("r", "wire", Sab, (2,))], blocks=[
+      ("ffw", "ff", [("=", ref("r", vi), ("st", "Sab", ref("r", vj, ("f", "b")), ref("in_", ("s", 0, 2))))]),
+      ("upo", "comb", [("=", ref("out"), ("call", "concat", ref("r", ("i", 0), ("f", "a")), ref("r", ("i", 1), ("f", "b"))))])])
+  yield "ffx:two-writers-in-one-block", comp("Reg2W", [("in_", "in", B(4), ()), ("sel", "in", B(2), ()), ("out", "out", B(4), ()), ("r", "wire", B(4), (2,)), ("t", "wire", B(4), ())], blocks=[
+      ("ffw", "ff", [("=", ref("r", ("i", 0)), ref("r", ("i", 1))), ("=", ref("r", ("i", 1)), ref("r", ("i", 0))),
+                     ("if", ref("sel", ("b", 1)), [("=", ref("r", vi), ref("in_"))], []), ("=", ref("t"), ("bin", "+", ref("t"), ref("r", vi)))]),
+      ("upo", "comb", [("=", ref("out"), ("bin", "+", ("bin", "^", ref("r", ("i", 0)), ref("r", ("i", 1))), ref("t")))])])
+
+
 # ----------------------------------------------------------------- F-fan
 
 FAN = [
@@ -391,7 +466,7 @@ def f_fan():
         yield f"fan:{label}:p{pi}:r{i}r{j}", comp("Fan", sigs, blocks=blocks)
 
 
-FAMILIES = {"fan": f_fan, "chain": f_chain, "reg": f_reg, "diamond": f_diamond, "net": f_net, "hier": f_hier}
+FAMILIES = {"ffx": f_ffx, "fan": f_fan, "chain": f_chain, "reg": f_reg, "diamond": f_diamond, "net": f_net, "hier": f_hier}
 
 
 def all_designs(families=None):
